@@ -99,6 +99,13 @@ theorem sendMessage_RMid {s : State} (h : RMid s) (remote : Remote) (mc : Bool) 
 theorem sendBare_RMid {s : State} (h : RMid s) (remote : Remote) (t : MType) (mid : Nat) :
     RMid (sendBare s remote t mid).1 := sendInitially_RMid h _ _ _ _
 
+theorem fireEmptyAck_RMid {s : State} (h : RMid s) (remote : Remote) (token : Token) :
+    RMid (fireEmptyAck s remote token).1 := by
+  unfold fireEmptyAck
+  split
+  · exact h
+  · exact sendBare_RMid (s := dropPiggy s remote token) (RMid_of_recent h rfl) _ _ _
+
 theorem recvDup_RMid {s : State} (h : RMid s) (remote : Remote) (w : Wire) :
     RMid (recvDup s remote w).1 := by
   unfold recvDup
@@ -117,7 +124,7 @@ theorem recvCode_RMid {s : State} (h : RMid s) (remote : Remote) (mcLocal : Bool
   · split
     · exact h
     · split
-      · exact RMid_of_recent h (processRequest_recent s remote w)
+      · exact RMid_of_recent (fireEmptyAck_RMid h remote w.token) (processRequest_recent s remote w)
       · split
         · dsimp only
           split
@@ -136,7 +143,7 @@ theorem recv_RMid {s : State} (h : RMid s) (remote : Remote) (mcLocal : Bool) (w
   · exact recvDup_RMid h _ _
   · dsimp only
     apply recvCode_RMid
-    have h0 : RMid (if isRequest w.code = true then
+    have h0 : RMid (if dedupable w = true then
         { s with recent := s.recent ++ [{ remote, mid := w.mid, reply := none,
                                           expiry := s.now + s.cfg.exchangeLifetime }] } else s) := by
       split
@@ -170,13 +177,6 @@ theorem fireRetransmit_RMid {s : State} (h : RMid s) (remote : Remote) (mid : Na
     · exact RMid_of_recent h rfl
     · exact RMid_of_recent (s := dropBacklog (dropExchange s remote mid) remote)
         (RMid_of_recent h rfl) (tokenDispatchError_recent _ remote _)
-
-theorem fireEmptyAck_RMid {s : State} (h : RMid s) (remote : Remote) (token : Token) :
-    RMid (fireEmptyAck s remote token).1 := by
-  unfold fireEmptyAck
-  split
-  · exact h
-  · exact sendBare_RMid (s := dropPiggy s remote token) (RMid_of_recent h rfl) _ _ _
 
 theorem fireExpire_RMid {s : State} (h : RMid s) (remote : Remote) (mid : Nat) :
     RMid (fireExpire s remote mid).1 := by
